@@ -183,6 +183,14 @@ Proof.
   - rewrite N.mul_1_l. exact Hmod.
 Qed.
 
+Example plain_bool_roundtrip_full_ex :
+  Forall (fun v => v < 2) [1; 0; 1; 1; 0; 0; 0; 1] /\ bytes_ok [200] /\ N.of_nat 8 mod 8 = 0 /\
+  plain_decode_bool 8 (plain_encode PBool (map VNum [1; 0; 1; 1; 0; 0; 0; 1]) ++ [200]) 0
+  = Ok ([1; 0; 1; 1; 0; 0; 0; 1], [200], 0).
+Proof.
+  split; [repeat constructor|]. split; [repeat constructor|]. split; vm_compute; reflexivity.
+Qed.
+
 Example plain_bool_roundtrip_ex :
   Forall (fun v => v < 2) [1; 0; 1; 1; 0; 0; 0; 1; 1; 0] /\ bytes_ok [200] /\
   plain_decode_bool 9 (plain_encode PBool (map VNum [1; 0; 1; 1; 0; 0; 0; 1; 1; 0]) ++ [200]) 0
@@ -277,6 +285,8 @@ Proof.
   rewrite (le_num_le_bytes k v Hv). f_equal. exact IH.
 Qed.
 
+(* (the statement is also true for k = 0, where the bound forces every value to be 0; the
+   hypothesis 0 < k is kept because a zero-width BYTE_STREAM_SPLIT column does not exist) *)
 Theorem bss_roundtrip : forall k vals,
   (0 < k)%nat -> Forall (fun v => v < 256 ^ N.of_nat k) vals ->
   exists st',
@@ -313,7 +323,8 @@ Proof.
   split; [lia|]. split; [repeat constructor|]. split; vm_compute; reflexivity.
 Qed.
 
-(* read split *)
+(* read split: holds for every stream list (also the empty one, where both sides yield zeros),
+   every outcome: bss_take can only fail with OOB, and does so iff some stream is shorter than n *)
 Lemma skipn_tl {A} n (c : list A) : skipn n (tl c) = skipn (S n) c.
 Proof. destruct c as [|x r]; cbn [tl skipn]; [destruct n; reflexivity|reflexivity]. Qed.
 
